@@ -105,6 +105,9 @@ impl<T> HbIter<T> {
     pub fn size_hint(&self) -> (r: (usize, Option<usize>))
         ensures r.0 == self@.remaining.len(), r.1 == Some(self@.remaining.len() as usize), self@.remaining.len() <= isize::MAX,
     { unimplemented!() }
+    /// ExactSizeIterator::len (provided method; exact because size_hint is)
+    #[verifier::external_body]
+    pub fn len(&self) -> (r: usize) ensures r == self@.remaining.len() { unimplemented!() }
 }
 impl<T> Iterator for HbIter<T> {
     type Item = HbBucket<T>;
@@ -143,6 +146,9 @@ impl<T> HbIntoIter<T> {
     pub fn size_hint(&self) -> (r: (usize, Option<usize>))
         ensures r.0 == self@.len(), r.1 == Some(self@.len() as usize), self@.len() <= isize::MAX
     { unimplemented!() }
+    /// ExactSizeIterator::len (provided method; exact because size_hint is)
+    #[verifier::external_body]
+    pub fn len(&self) -> (r: usize) ensures r == self@.len() { unimplemented!() }
 }
 impl<T> HbDrain<'_, T> {
     pub uninterp spec fn view(&self) -> Multiset<T>;
@@ -157,6 +163,9 @@ impl<T> HbDrain<'_, T> {
     pub fn size_hint(&self) -> (r: (usize, Option<usize>))
         ensures r.0 == self@.len(), r.1 == Some(self@.len() as usize), self@.len() <= isize::MAX
     { unimplemented!() }
+    /// ExactSizeIterator::len (provided method; exact because size_hint is)
+    #[verifier::external_body]
+    pub fn len(&self) -> (r: usize) ensures r == self@.len() { unimplemented!() }
 }
 
 /// `a` is an element-wise clone of `b` (same buckets, same control bytes)
